@@ -165,6 +165,26 @@ fn parser(r: &mut Report, rng: &mut Rng, random_n: usize) {
             }
         }
     }
+    // every code point U+0000..U+00FF (all of ASCII incl. the control characters, and Latin-1), and digit
+    // look-alikes from other scripts, at every position of an otherwise valid id; for multi-byte characters
+    // also with as many digits removed as keeps the byte length at 40
+    let lookalikes = ['\u{ff10}', '\u{ff19}', '\u{ff21}', '\u{ff41}', '\u{0660}', '\u{0669}', '\u{06f0}', '\u{0966}', '\u{1d7ce}', '\u{2170}', '\u{00b2}', '\u{2460}'];
+    let sweep: Vec<char> = (0u32..=0xff).filter_map(char::from_u32).chain(lookalikes).collect();
+    for pos in 0..40usize {
+        for &ch in &sweep {
+            let base: Vec<char> = (0..40).map(|_| hexl.as_bytes()[rng.usize(16)] as char).collect();
+            let mut one = base.clone();
+            one[pos] = ch;
+            check_str(r, &one.iter().collect::<String>());
+            if ch.len_utf8() > 1 && pos + ch.len_utf8() <= 40 {
+                let mut same_len: Vec<char> = base[..pos].to_vec();
+                same_len.push(ch);
+                same_len.extend_from_slice(&base[pos + ch.len_utf8()..]);
+                check_str(r, &same_len.iter().collect::<String>());
+            }
+            r.count("parser_single_character_sweep");
+        }
+    }
     // strings made only of specials with total byte length 40
     for sp in &specials {
         let n = 40 / sp.len();
